@@ -13,5 +13,6 @@ let handle = function
      | (Res.Err, _) -> "ERR"
      | (Res.Panic, _) -> "PANIC")
   | ["serve"; out; reqs] -> Stdlib.String.concat "," (Stdlib.List.map hex_of_bytes (Fill.serve (bytes_of_hex out) (ns_of reqs)))
+  | ["lwrun"; w; chunks] -> hex_of_bytes (LineWriter.lw_run (nn w) (chunks_of chunks))
   | _ -> "MODEL-ERROR unknown op"
 let () = run handle
